@@ -201,3 +201,24 @@ Proof.
   split_ifs; cbn [vr_is_empty negb bind]; intros H; try discriminate; injection H as <-; b2p; unfold mem, wf.
   all: try (split; [exists v; split; [|exact Hv] | ]); try (subst a; mlia); try wl.
 Qed.
+
+(* eq on the true branch, both operands variables: the two variables hold the same word a.
+   The bounds may only be intersected when both ranges denote words in the same representation
+   (the unguarded intersection is refuted in PropsClients.v: range_eq_intersect_unguarded_refuted). *)
+Theorem refine_eq_vars_sound : forall A B a R,
+  wf A -> wf B -> 0 <= a < W -> mem a A -> mem a B ->
+  refine_eq_vars A B = Ok (Some R) -> mem a R /\ wf R.
+Proof.
+  intros A B a R WA WB Ha MA MB. unfold refine_eq_vars.
+  destruct A as [| |l1 h1]; destruct B as [| |l2 h2]; open_cur;
+    try (unfold mem in MA; contradiction); try (unfold mem in MB; contradiction);
+    try (intros H; injection H as <-; cbn [vr_intersect]; split; assumption).
+  consts'. unfold wf in WA, WB. unfold mem in MA, MB.
+  destruct MA as [v1 [R1 H1]]. destruct MB as [v2 [R2 H2]].
+  cbn [vr_intersect]. unfold vr_iv.
+  destruct (l1 >=? 0) eqn:E1; destruct (l2 >=? 0) eqn:E2; destruct (h1 <=? HALF - 1) eqn:E3; destruct (h2 <=? HALF - 1) eqn:E4;
+    cbn [bind andb orb negb]; try discriminate; b2p.
+  all: assert (v1 = v2) by (subst a; mlia); subst v2.
+  all: destruct (Z.max l1 l2 >? Z.min h1 h2) eqn:E5; b2p; intros H; injection H as <-; unfold mem, wf; try lia.
+  all: split; [exists v1; split; [lia | exact H1] | lia].
+Qed.
